@@ -90,6 +90,7 @@ type rec struct {
 	KOut    string   `json:"kout"`
 	KIn     string   `json:"kin"`
 	Red     bool     `json:"red"`
+	Noop    bool     `json:"noop"`
 	TopK    []string `json:"topk"`
 	ConK    []string `json:"conk"`
 	TpiK    []string `json:"tpik"`
@@ -465,7 +466,37 @@ func protoOf(ver string, p *protoRec, seed int64) built {
 
 func (b *built) build(ver string) (gmsl.PDU, error) {
 	impl := gmsl.MustGetRoomVersion(gmsl.RoomVersion(ver))
+	if isDomainless(ver) && b.pe.Type == spec.MRoomCreate && b.pe.StateKey != nil && *b.pe.StateKey != "" && b.room != nil {
+		return b.compose(impl)
+	}
 	return impl.NewEventBuilderFromProtoEvent(&b.pe).Build(b.now, spec.ServerName(b.signer.name), b.signer.key, b.signer.priv)
+}
+
+// compose: EventBuilder.Build of a domainless room version refuses every m.room.create-typed state event that
+// carries a room ID, also those that are not the create event (non-empty state key). Such an event is built under
+// a placeholder type, given its type, re-hashed (content hash of the specification) and signed with PDU.Sign:
+// the same steps Build performs.
+func (b *built) compose(impl gmsl.IRoomVersion) (gmsl.PDU, error) {
+	pe := b.pe
+	pe.Type = "org.example.placeholder"
+	tmp, err := impl.NewEventBuilderFromProtoEvent(&pe).Build(b.now, spec.ServerName(b.signer.name), b.signer.key, b.signer.priv)
+	if err != nil {
+		return nil, err
+	}
+	var ev map[string]json.RawMessage
+	if err := json.Unmarshal(tmp.JSON(), &ev); err != nil {
+		return nil, err
+	}
+	ev["type"] = q(b.pe.Type)
+	delete(ev, "signatures")
+	ev["hashes"] = contentHash(ev)
+	p, err := impl.NewEventFromTrustedJSON(marshalRawMap(ev), false)
+	if err != nil {
+		return nil, err
+	}
+	p = p.Sign(b.signer.name, b.signer.key, b.signer.priv)
+	// as Build does: the result is what a parse of the final JSON gives
+	return impl.NewEventFromTrustedJSON(append([]byte(nil), p.JSON()...), false)
 }
 
 // ---- JSON helpers -------------------------------------------------------------------------------------------
